@@ -32,7 +32,7 @@ def drive(jobs, fn=_worker, procs=16):
 
 
 def plan(tier, rng, kinds):
-    n = 900 if tier == 'quick' else 14000
+    n = 900 if tier == 'quick' else 7000
     maxw, maxh = (8, 8) if tier == 'quick' else (12, 12)
     jobs = []
     for i in range(n):
@@ -79,26 +79,42 @@ def nontrivial(results):
 
 # ------------------------------------------------------------------ vault sweep at Row level (the three vault functions)
 
-def _row_sweep_cases(tier):
-    """(<=3 runs, repeats <=3) x {set, insert, delete} x every position 0..width+1 x repeat 1..4: exhaustive"""
+def _row_sweep_cases(tier, rng=None):
+    """exhaustive: (<=3 runs [thorough: <=4], repeats <=3) x {set, insert, delete} x every position -1..width+1 x repeat 1..4;
+    plus random Row-level histories of one step over the whole Row alphabet (append, set_cells, set_values, extend_cells, clear)"""
     import itertools
-    maxruns = 3
+    maxruns = 3 if tier == 'quick' else 4
     cases = []
     for k in range(maxruns + 1):
         for reps in itertools.product((1, 2, 3), repeat=k):
             w = sum(reps)
+            cells = [[r, i + 1, None] for i, r in enumerate(reps)]
             for x in list(range(0, w + 2)) + [-1]:
                 for rep in (1, 2, 3, 4):
-                    cases.append((reps, 'set', x, rep)); cases.append((reps, 'ins', x, rep))
-                cases.append((reps, 'del', x, 1))
-    return cases
+                    cases.append((cells, ['set', x, [rep, 9, None]])); cases.append((cells, ['ins', x, [rep, 9, None]]))
+                cases.append((cells, ['del', x]))
+    nexh = len(cases)
+    if rng is not None:
+        for _ in range(1500 if tier == 'quick' else 20000):
+            cells = [tl.g_cellspec(rng) for _ in range(rng.randint(0, 4))]
+            w = sum(c[0] for c in cells)
+            x = rng.choice([0, 0, 1, w - 1, w, w + 1, w + 2, -1, -2, rng.randint(0, w + 1)])
+            k = rng.choice(['set', 'ins', 'del', 'app', 'set_cells', 'set_cells', 'set_values', 'set_values', 'extend', 'clear'])
+            if k in ('set', 'ins'): op = [k, x, tl.g_cellspec(rng)]
+            elif k == 'del': op = [k, x]
+            elif k == 'app': op = [k, tl.g_cellspec(rng)]
+            elif k == 'set_cells': op = [k, rng.random() < 0.5, x, [tl.g_cellspec(rng) for _ in range(rng.randint(0, 5))]]
+            elif k == 'set_values': op = [k, x, [rng.choice(tl.VALUES) for _ in range(rng.randint(0, 5))], rng.choice([None, 's1'])]
+            elif k == 'extend': op = [k, [tl.g_cellspec(rng) for _ in range(rng.randint(0, 3))]]
+            else: op = [k]
+            cases.append((cells, op))
+    return cases, nexh
 
 
 def _row_sweep_worker(chunk):
     odfdo = common.use_repo()
     out = []
-    for reps, kind, x, rep in chunk:
-        cells = [[r, i + 1, None] for i, r in enumerate(reps)]
+    for cells, op in chunk:
         xml = '<table:table-row>%s</table:table-row>' % ''.join(tl.cell_xml(c) for c in cells)
         try:
             row = tl.timed(odfdo.Element.from_tag, xml)
@@ -107,20 +123,37 @@ def _row_sweep_worker(chunk):
             def absrow():
                 el = tl.etree.fromstring('<r %s>%s</r>' % (tl.NSDECL, row.serialize()))[0]
                 return [(tl.rep_val(c[1]), c[2], c[3]) for c in (intern.cell(e) for e in el)]
+
+            def acell(c):
+                f, r_, v, s = intern.cell(tl.etree.fromstring('<r %s>%s</r>' % (tl.NSDECL, c.serialize()))[0])
+                return (tl.rep_val(r_), v, s)
             pre = absrow()
-            c = odfdo.Cell(9, repeated=rep if rep > 1 else None)
-            f, r_, v, s = intern.cell(tl.etree.fromstring('<r %s>%s</r>' % (tl.NSDECL, c.serialize()))[0])
-            arg = (tl.rep_val(r_), v, s)
-            if kind == 'set':
-                tl.timed(row.set_cell, x, c); op = 'RSet (%d) %s' % (x, tl.c_cellrun(arg))
-            elif kind == 'ins':
-                tl.timed(row.insert_cell, x, c); op = 'RIns (%d) %s' % (x, tl.c_cellrun(arg))
+            k = op[0]
+            if k in ('set', 'ins'):
+                c = tl.mk_cell(odfdo, op[2]); a = acell(c)
+                tl.timed(row.set_cell if k == 'set' else row.insert_cell, op[1], c)
+                term = '%s (%d) %s' % ('RSet' if k == 'set' else 'RIns', op[1], tl.c_cellrun(a))
+            elif k == 'del':
+                tl.timed(row.delete_cell, op[1]); term = 'RDel (%d)' % op[1]
+            elif k == 'app':
+                c = tl.mk_cell(odfdo, op[1]); a = acell(c); tl.timed(row.append_cell, c); term = 'RApp %s' % tl.c_cellrun(a)
+            elif k == 'set_cells':
+                objs = [tl.mk_cell(odfdo, c) for c in op[3]]; a = [acell(c) for c in objs]
+                tl.timed(row.set_cells, objs, op[2], op[1])
+                term = 'RSetCells %s (%d) %s' % ('true' if op[1] else 'false', op[2], tl.c_cells(a))
+            elif k == 'set_values':
+                a = [acell(tl.mk_cell(odfdo, [1, v, op[3]])) for v in op[2]]
+                tl.timed(row.set_values, op[2], op[1], style=op[3])
+                term = 'RSetCells false (%d) %s' % (op[1], tl.c_cells(a))
+            elif k == 'extend':
+                objs = [tl.mk_cell(odfdo, c) for c in op[1]]; a = [acell(c) for c in objs]
+                tl.timed(row.extend_cells, objs); term = 'RExtend %s' % tl.c_cells(a)
             else:
-                tl.timed(row.delete_cell, x); op = 'RDel (%d)' % x
+                tl.timed(row.clear); term = 'RClear'
             post = absrow()
-            out.append('(%s, %s, %s, %s)' % (tl.c_cells(pre), op, tl.c_cells(post), tl.c_zlist(list(row._rmap))))
+            out.append('(%s, %s, %s, %s)' % (tl.c_cells(pre), term, tl.c_cells(post), tl.c_zlist(list(row._rmap))))
         except Exception as e:
-            out.append('(%s, RClear, [(7%%nat,(7,7))], [])' % tl.c_cells([(r, i + 1, 0) for i, r in enumerate(reps)]))
+            out.append('(%s, RClear, [(7%%nat,(7,7))], [])' % tl.c_cells([(c[0], 1, 0) for c in cells]))
     return out
 
 
@@ -129,12 +162,12 @@ ROW_HEADER = ('Require Import Vault Row Table Grid Tableabs Tablexml Tablechk.\n
               'Definition chkrow (c : rruns * rop * rruns * list Z) : nat := let \'(pre, o, post, m) := c in chk_row pre o post m.\n')
 
 
-def row_sweep(tier, only=None):
-    cases = [only] if only else _row_sweep_cases(tier)
+def row_sweep(tier, only=None, rng=None):
+    cases, nexh = ([only], 0) if only else _row_sweep_cases(tier, rng)
     if only:
         terms = _row_sweep_worker(cases)
         bad, errors = common.run_shards(ROW_HEADER, terms, 'chkrow', 'rowsweep')
-        return cases, bad, errors
+        return cases, bad, errors, 0
     n = 16
     chunks = [cases[i::n] for i in range(n)]
     ctx = multiprocessing.get_context('fork')
@@ -145,7 +178,7 @@ def row_sweep(tier, only=None):
         for j, t in enumerate(out):
             terms.append(t); index.append(chunks[ci][j])
     bad, errors = common.run_shards(ROW_HEADER, terms, 'chkrow', 'rowsweep', shard=max(50, len(terms) // 16 + 1))
-    return index, bad, errors
+    return index, bad, errors, nexh
 
 
 # ------------------------------------------------------------------ the check proper
@@ -168,7 +201,7 @@ def evaluate(cases, checker, tag):
     for i, (case, res) in enumerate(results):
         if res['term'] is not None:
             terms.append(res['term']); idx.append(i)
-    bad, errors = common.run_shards(tl.HEADER, terms, checker, tag, shard=max(1, len(terms) // 16 + 1))
+    bad, errors = common.run_shards(tl.HEADER, terms, checker, tag, shard=min(300, max(1, len(terms) // 16 + 1)))
     return results, {idx[k]: c for k, c in bad.items()}, errors
 
 
@@ -194,15 +227,14 @@ def run_table_check(prop, tier, seed, replay, checker, layers, soft_codes, kinds
         cases = [payload['case']] if 'case' in payload else []
         results, bad, errors = evaluate(cases, checker, prop.lower()) if cases else ([], {}, [])
         sweep = None
-        if 'row_run_repeats' in payload:
-            kind, x, rep = payload['operation']
-            sweep = row_sweep(tier, only=(tuple(payload['row_run_repeats']), kind, x, rep))
+        if 'row_cells' in payload:
+            sweep = row_sweep(tier, only=(payload['row_cells'], payload['operation']))
     else:
         jobs = plan(tier, rng, kinds)
         gen = drive(jobs)
         cases = corpus + [c for c, r in gen if r is None or r.get('error') is None or True]
         results, bad, errors = evaluate(cases, checker, prop.lower())
-        sweep = row_sweep(tier) if prop == 'C01' else None
+        sweep = row_sweep(tier, rng=rng) if prop == 'C01' else None
     violations, known_seen, notes = [], [], []
     abstraction_failures = [(i, r['error']) for i, (c, r) in enumerate(results) if r['term'] is None]
     hard = {i: c for i, c in bad.items() if c != 9 and (c % 100) in layers}
@@ -241,19 +273,19 @@ def run_table_check(prop, tier, seed, replay, checker, layers, soft_codes, kinds
     # the vault sweep (C01): exhaustive small scope at Row level
     sweep_cov = {}
     if sweep is not None:
-        index, sbad, serr = sweep
+        index, sbad, serr, nexh = sweep
         errors += serr
         shard = {k: c for k, c in sbad.items() if c in (2, 5)}
-        sweep_cov = dict(vault_sweep_cases=len(index), vault_sweep_exhaustive=True,
-                         vault_sweep_rule='Row.set_cell/insert_cell/delete_cell on every run list with <=3 runs of repeats <=3, every position 0..width+1 and -1, argument repeats 1..4',
+        sweep_cov = dict(vault_sweep_cases=len(index), vault_sweep_exhaustive_prefix=nexh,
+                         vault_sweep_rule='exhaustive prefix: Row.set_cell/insert_cell/delete_cell on every run list with <=%d runs of repeats <=3, every position 0..width+1 and -1, argument repeats 1..4; '
+                                          'then random single Row-level calls over the whole Row alphabet (set/insert/delete/append cell, set_cells with and without clone, set_values, extend_cells, clear) on styled, valued rows' % (3 if tier == 'quick' else 4),
                          vault_sweep_failures=len(shard), vault_sweep_shape_only=sum(1 for c in sbad.values() if c == 9))
         for k in sorted(shard)[:1]:
-            reps, kind, x, rep = index[k]
-            key = 'Row.%s/%s' % (kind, 'expanded-cells' if shard[k] == 2 else 'map')
+            cells, op = index[k]
+            key = 'Row.%s/%s' % (op[0], 'expanded-cells' if shard[k] == 2 else 'map')
             payload = dict(layer='vault sweep: ' + ('expanded cells differ from the list operation' if shard[k] == 2 else '_rmap is not the map of the XML'),
-                           key=key, row_run_repeats=list(reps), operation=[kind, x, rep], known_finding_key=key if key in known else None,
-                           how='Row built from XML with cells of these repeats; Row.%s_cell(%d%s)' % (
-                               {'set': 'set', 'ins': 'insert', 'del': 'delete'}[kind], x, '' if kind == 'del' else ', Cell(9, repeated=%d)' % rep))
+                           key=key, row_cells=cells, operation=op, known_finding_key=key if key in known else None,
+                           how='Row built from XML with cells [repeat, value, style] = row_cells; then the Row call `operation`')
             if key in known:
                 known_seen.append(key)
             else:
